@@ -35,6 +35,8 @@
 //!   9 cigar (all nine operations)   10 refs (N / IUPAC / lower case in the reference)
 //!   11 slices (10240 + nrec records: templates inside a slice and across the slice boundary)
 //!   12 manyrefs (20..60 @SQ)
+//!   (residual known class RESIDUAL_TAG: bases + 0x4 clear + CIGAR `*` reads back with CIGAR `<len>S`, everything
+//!    else as written -- see is_residual_soft_clip; the older tags of cls 13-15 stay as recurrence tags)
 //!   13 noseq-cigar, 14 flag-mapped-unplaced, 15 mapped-nocigar: three shapes SAM and BAM hold and
 //!      the CRAM writer of /repo refuses or mangles (see CLS_NAMES); kept apart so that they do
 //!      not hide the rest.
@@ -1755,6 +1757,32 @@ fn stage_index(stage: &str) -> Option<usize> {
     stage.split_once('#').and_then(|(_, n)| n.parse().ok())
 }
 
+// The ONE residual known class of the CRAM path (after a591b36 / fe42e80): a record that carries
+// bases, is not on the unmapped path (0x4 clear) and has NO CIGAR is stored with its bases as one
+// whole-read soft clip; it reads back with every field as written EXCEPT the CIGAR, which is
+// `<len>S`.  The predicate is exact: source record (bases, 0x4 clear, CIGAR `*`) AND the line read
+// back differs from the expectation in the CIGAR column only AND that column is `<len of SEQ>S`.
+// Such a difference does not stop the comparison (every other record, every other direction and
+// the header are still checked: any other difference is a NEW failure); it is remembered here and
+// reported once at the end of the case.
+pub const RESIDUAL_TAG: &str = "cram-missing-cigar-with-bases-reads-back-as-soft-clip";
+thread_local! {
+    static RESIDUAL: std::cell::RefCell<Option<String>> = const { std::cell::RefCell::new(None) };
+}
+
+fn is_residual_soft_clip(r: &Rec, exp: &[u8], got: &[u8]) -> bool {
+    if r.seq.is_empty() || r.flags & 4 != 0 || !r.cigar.is_empty() {
+        return false;
+    }
+    let (e, a) = (split_cols(exp), split_cols(got));
+    if e.len() != a.len() || e.len() < 11 {
+        return false;
+    }
+    e.iter().zip(&a).enumerate().all(|(c, (x, y))| {
+        if c == 5 { x.as_slice() == b"*" && *y == format!("{}S", r.seq.len()).into_bytes() } else { x == y }
+    })
+}
+
 /// compare the lines read from a target with the expectation
 fn compare(ds: &DataSet, dir: &str, reader: &str, got: &[Vec<u8>]) -> Result<(), Fail> {
     let got: Vec<Vec<u8>> = got.iter().map(|l| norm_via_cram(l, ds.lower_ref)).collect();
@@ -1762,6 +1790,18 @@ fn compare(ds: &DataSet, dir: &str, reader: &str, got: &[Vec<u8>]) -> Result<(),
         return Err(Fail { dir: dir.into(), rec: None, what: "record-count".into(), class: None, detail: format!("{reader}: read {} of {} records", got.len(), ds.expect.len()) });
     }
     for (i, (e, a)) in ds.expect.iter().zip(&got).enumerate() {
+        if e != a && is_residual_soft_clip(&ds.recs[i], e, a) {
+            RESIDUAL.with(|c| {
+                let mut c = c.borrow_mut();
+                if c.is_none() {
+                    *c = Some(format!(
+                        "{dir}, {reader}: record {i} of {} ({}, {}, {}): every column as written except CIGAR: expected `{}` got `{}`",
+                        ds.expect.len(), name_class(&ds.recs[i]), place_class(&ds.recs[i]), mate_class(&ds.recs, i), show(e), show(a)
+                    ));
+                }
+            });
+            continue;
+        }
         if e != a {
             let col = super::common::diff_column(e, a);
             let class = class_for_col(&ds.recs, i, col, e, a);
@@ -1909,8 +1949,15 @@ fn minimise(ds: &DataSet, f: &Fail) -> Vec<usize> {
 }
 
 fn verdict(ds: &DataSet) -> Bad<()> {
+    RESIDUAL.with(|c| *c.borrow_mut() = None);
     let f = match check_all(ds, None) {
-        Ok(()) => return Ok(()),
+        Ok(()) => {
+            // nothing else differs anywhere: only the residual known class, if it occurred
+            return match RESIDUAL.with(|c| c.borrow_mut().take()) {
+                Some(d) => bad(RESIDUAL_TAG, d),
+                None => Ok(()),
+            };
+        }
         Err(f) => f,
     };
     let mut detail = f.detail.clone();
